@@ -132,10 +132,36 @@ theorem fold_asCode_eq_fixed_tern (cc ca cb : CE) (hk : (∃ v, cc.kind = .lit v
     ternOfCE Cfg.asCode cc ca cb = ternOfCE Cfg.fixed cc ca cb := by
   have hs : ternSafe (.imm "" false) cc ca cb = true := by
     unfold ternSafe
-    rcases hk with ⟨v, hk⟩ | ⟨r, hk⟩ <;> simp only [hk] <;> exact h
+    rcases hk with ⟨v, hk⟩ | ⟨r, hk⟩ <;> simp only [hk] <;> exact liveKeepsTy_of_eqv _ h
   have := ternOfCE_asCode_eq_fixed (.imm "" false) cc ca cb hs
   rw [normTy_of_not rfl] at this
   exact this.symm
+
+/-- constant `?:`, widened (branch `carve-wider`): both arms at least `int` wide and the LIVE arm (`first`: the first
+    one) already of the common type of both — `(8 != 0) ? extract64(x, 0, 8) : 0LL` (live `uint64_t`, dead `int64_t`) -/
+def FoldSafeTernLive (first : Bool) (ca cb : CE) : Bool := liveKeepsTy first ca cb
+
+/-- which arm a constant condition selects -/
+def liveFirst (cc : CE) : Bool :=
+  match cc.kind with
+  | .lit v => v != 0
+  | .boolLit r => r
+  | _ => true
+
+theorem fold_asCode_eq_fixed_tern_live (cc ca cb : CE) (hk : (∃ v, cc.kind = .lit v) ∨ (∃ r, cc.kind = .boolLit r))
+    (h : FoldSafeTernLive (liveFirst cc) ca cb = true) :
+    ternOfCE Cfg.asCode cc ca cb = ternOfCE Cfg.fixed cc ca cb := by
+  have hs : ternSafe (.imm "" false) cc ca cb = true := by
+    unfold ternSafe
+    unfold FoldSafeTernLive liveFirst at h
+    rcases hk with ⟨v, hk⟩ | ⟨r, hk⟩ <;> simp only [hk] at h ⊢ <;> exact h
+  have := ternOfCE_asCode_eq_fixed (.imm "" false) cc ca cb hs
+  rw [normTy_of_not rfl] at this
+  exact this.symm
+
+/-- the old side condition implies the widened one -/
+theorem foldSafeTernLive_of_foldSafeTern (first : Bool) {ca cb : CE} (h : FoldSafeTern ca cb = true) :
+    FoldSafeTernLive first ca cb = true := liveKeepsTy_of_eqv first h
 
 /-- **C09 T2** at the level of expressions: `FoldSafe` is the restriction of the carve-out `CarveE` (C02) to the
     folding sites — literal values in range of their suffix-only type = their C11 type (`litTypeCode = litTypeC`),
